@@ -515,3 +515,31 @@ Definition intended (r : sref) : target := match r with RTable n => TBase n | RV
 Definition captured_refs (q : wquery) : list sref := filter (fun r => negb (target_eqb (resolve (w_ctes q) r) (intended r))) (w_refs q).
 Definition wq_tables (q : wquery) : list string := flat_map (fun r => match r with RTable n => [n] | _ => [] end) (w_refs q).
 Definition wq_wellformed (q : wquery) : bool := forallb (fun r => match r with RView n => mem n (w_ctes q) | _ => true end) (w_refs q).
+
+(* sql_model.to_sql since 161d83f: the view counter starts past every table of the pipeline that is itself named like a view
+     for t in ops.get_tables().values(): m = re.match(r"^(?:table_reference|extend|...)_([0-9]+)$", t.table_name)
+         if m is not None: temp_id_source[0] = max(temp_id_source[0], int(m.group(1)) + 1)
+   and every view is then named <kind>_<id> with id counting up from there. *)
+Local Open Scope string_scope.
+Definition view_kinds : list string :=
+  ["table_reference_"; "extend_"; "project_"; "select_rows_"; "order_rows_"; "map_columns_"; "rename_"; "natural_join_";
+   "concat_rows_"; "convert_records_blocks_in_"; "convert_records_blocks_out_"].
+Local Close Scope string_scope.
+Definition parse_nat (s : string) : option nat :=                       (* int(m.group(1)) for [0-9]+ *)
+  match s with
+  | EmptyString => None
+  | _ => if all_digits s then option_map Nat.of_uint (NilEmpty.uint_of_string s) else None
+  end.
+(* the numbers n with t = <kind>_<n> (the alternatives of the pattern exclude each other; the model keeps them all) *)
+Definition view_numbers (t : string) : list nat :=
+  flat_map (fun p => match strip_prefix p t with
+                     | Some d => match parse_nat d with Some n => [n] | None => [] end
+                     | None => []
+                     end) view_kinds.
+Definition first_view_id (tables : list string) : nat := fold_right Nat.max 0 (flat_map (fun t => map S (view_numbers t)) tables).
+(* a view name the generator may produce for these tables *)
+Definition generated_view_name (tables : list string) (v : string) : bool :=
+  existsb (fun p => match strip_prefix p v with
+                    | Some d => match parse_nat d with Some n => Nat.leb (first_view_id tables) n | None => false end
+                    | None => false
+                    end) view_kinds.
